@@ -87,6 +87,11 @@ prop("C06",
  "Trusted: bufio.ScanLines, compress/gzip, os.Create truncation. Not decided: byte equality across OS channels as observed bytes.",
  "inter-procedural mod/ref of globals, receiver provenance, bounded path enumeration of the scan loop with edge facts, who-may-use analysis of the output handle, CFG co-reachability", "DESIGN.md section 3, C06")
 
+prop("C04",
+ "Who may write what, decided on SSA with the provenance analysis and the reconstructed tables: every mutator call or element store whose receiver is part of the parsed line is one of an enumerated set (attr.remote constant under --redactIPs; the three command documents re-stored as themselves; attr.planSummary under the per-line field-name mode; attr.ns under --redactNamespaces; zone keys in the command walker; the namespace rewriter's constant key list with all its calls under the flag; in-place stores only inside zone walkers), no Delete/ReplaceKey, the line function returns the parsed entry itself; UseNumber dominates every decoder use and no number token is converted; keys inside zones are renamed only under the field-name parameter; $limit/$skip/$sample/search index, limit, numCandidates/$binary.subType are Exempt in the tables and every Exempt arm of the walkers hands the value on untouched; parser keeps member and element order and returns scalar tokens unchanged; serialiser iterates Front-to-Next and marshals every member; dispatch only under the COMMAND/QUERY/WRITE/'Slow query' gate with no further disjunct. Level 'other': encoding/json's byte-level rendering is trusted.",
+ "Trusted: encoding/json renders json.Number verbatim and strings faithfully (HTML escaping is a semantically identical re-encoding); orderedmap.Set keeps the position of an existing key.",
+ "receiver-provenance classification of all mutators on the line path against a writer table, dominance checks, table reconstruction, parser/serialiser loop-shape analysis", "DESIGN.md section 3, C04")
+
 ALL = ["C%02d" % i for i in range(1, 21)]
 checks = []
 for pid in ALL:
